@@ -50,18 +50,22 @@ def run(repo, chk):
     for s in pstore:
         chk.ob('a', reg.ref, 'register() makes the given component the parent', src(s.ast.value) == par, loc(reg, s.ast), discr='register:parent-value')
         p = Q.escapes(g, [s], lambda n: n in addc, avoid_edge=self_reg_edge)
-        chk.ob('a', reg.ref, 'setting the parent is followed on every path by adding the component to the parent\'s children', p is None and bool(addc),
-               loc(reg, s.ast), path=pat.path_lines(p, s) if p else None, discr='register:child-added')
+        before = Q.reachable_without(g, s, avoid_node=lambda n: n in addc, avoid_edge=self_reg_edge)
+        chk.ob('a', reg.ref, 'setting the parent goes together, on every path, with adding the component to the parent\'s children', (p is None or before is None) and bool(addc),
+               loc(reg, s.ast), path=pat.path_lines(p, s) if (p and before) else None, discr='register:child-added')
+        # registerChild may refuse (UnregistrableError): nothing of the component may have been changed by then
+        chk.ob('a', reg.ref, 'the component is linked (parent, root) only after the parent has accepted it: a refused registration leaves it untouched', before is None and bool(addc),
+               loc(reg, s.ast), path=pat.path_lines(before) if before else None, discr='register:accepted-before-linking')
         p = Q.escapes(g, [s], lambda n: n in updr)
         chk.ob('b', reg.ref, 'setting the parent is followed on every path by _updateRoot(parent.root)', p is None and bool(updr), loc(reg, s.ast),
                path=pat.path_lines(p, s) if p else None, discr='register:root-updated')
     for a in addc:
-        p = Q.escapes(g, [a], lambda n: n in fires)
+        p = Q.escapes(g, [a], lambda n: n in fires, avoid_edge=self_reg_edge)       # (registerChild only runs when parent is not self: the same test cannot turn out otherwise later)
         chk.ob('c', reg.ref, 'a completed registration is announced by a registered event', p is None and bool(fires), loc(reg, a.ast),
                path=pat.path_lines(p, a) if p else None, discr='register:announced')
     chk.ob('c', reg.ref, 'registered is fired from exactly one site', len(fires) == 1, loc(reg, reg.node), discr='register:once')
     for fn in fires:
-        p = Q.reachable_without(g, fn, avoid_node=lambda n: n in addc)
+        p = Q.reachable_without(g, fn, avoid_node=lambda n: n in addc, avoid_edge=self_reg_edge)
         p2 = Q.reachable_without(g, fn, avoid_node=lambda n: n in updr)
         chk.ob('c', reg.ref, 'registered is fired only after the child link and the roots are in place', p is None and p2 is None, loc(reg, fn.ast),
                path=pat.path_lines(p or p2) if (p or p2) else None, discr='register:after-links')
@@ -84,6 +88,16 @@ def run(repo, chk):
     p = Q.escapes(g2, [g2.entry], lambda n: n in drains)
     chk.ob('d', rc.ref, 'registerChild drains the child\'s queue into the root\'s queue on every normal path', p is None and bool(drains),
            loc(rc, rc.node), path=pat.path_lines(p) if p else None, discr='registerChild:drain')
+    # an event the component dispatched on its own may still have suspended generator handlers: they are stepped by a root's tick() only, so they move too
+    tmove = [n for n in g2.nodes if n.kind == 'stmt' and any(pat.expand_alias(rc, n, r) == 'self.root._tasks' and [src(a) for a in c.args] == [f'{comp}._tasks']
+                                                            for r, c in pat.method_calls(n.ast, 'update'))] + \
+            [n for n in g2.nodes if n.kind == 'stmt' and isinstance(n.ast, ast.AugAssign) and isinstance(n.ast.op, ast.BitOr) and pat.expand_alias(rc, n, src(n.ast.target)) == 'self.root._tasks'
+             and src(n.ast.value) == f'{comp}._tasks']
+    tclr = [n for n in g2.nodes if n.kind == 'stmt' and any(r == f'{comp}._tasks' for r, _c in pat.method_calls(n.ast, 'clear'))]
+    p = Q.escapes(g2, [g2.entry], lambda n: n in tmove)
+    chk.ob('d', rc.ref, 'registerChild hands the suspended generator handlers (tasks) of the component over to the root on every normal path, and takes them off the component',
+           p is None and bool(tmove) and bool(tclr) and all(Q.reaches(a_, b_) for a_ in tmove for b_ in tclr), loc(rc, rc.node), path=pat.path_lines(p) if p else None,
+           discr='registerChild:tasks-moved')
     q = repo.cls(MANAGER, '_EventQueue').methods.get('drainFrom')
     need(q, 'C07.d: _EventQueue.drainFrom missing')
     chk.touch(q)
@@ -92,6 +106,27 @@ def run(repo, chk):
     clr = [c for r, c in pat.method_calls(q.node, 'clear') if r == f'{other}._queue']
     chk.ob('d', q.ref, 'drainFrom moves (extends, then clears) the other queue\'s pending events', bool(ext) and bool(clr), loc(q, q.node),
            discr='drainFrom')
+    # the component may register from one of its own handlers, i.e. while its queue is being flushed: the rest of the batch (the heap) is handed over as well,
+    # and nothing in the hand-over can fail half-way (the caller has linked the component already)
+    qcls = repo.cls(MANAGER, '_EventQueue')
+    heap = None
+    for n in walk_no_defs(qcls.methods['__init__'].node):
+        if isinstance(n, ast.Assign) and isinstance(n.value, ast.List) and not n.value.elts and isinstance(n.targets[0], ast.Attribute):
+            heap = n.targets[0].attr
+    need(heap, 'C07.d: the batch heap of _EventQueue was not found')
+    gq = q.cfg()
+    stops = [n for n in gq.nodes if n.kind in ('stmt', 'test') and n.ast is not None and any(isinstance(w, (ast.Assert, ast.Raise)) for w in [n.ast] + list(getattr(n.ast, '_parent', None) and [getattr(n.ast, '_parent')] or []))]
+    chk.ob('d', q.ref, 'the hand-over cannot refuse or fail half-way (no assert / raise): when it runs the component is linked to its new parent already', not stops,
+           loc(q, stops[0].ast) if stops and stops[0].ast is not None else loc(q, q.node), discr='drainFrom:total')
+    moved = [n for n in gq.nodes if n.kind == 'stmt' and any(src(c.args[0]).replace(' ', '') in (f'heappop({other}.{heap})',) for r, c in pat.method_calls(n.ast, 'append')
+                                                             if r == 'self._queue' and c.args)] + \
+            [n for n in gq.nodes if n.kind == 'stmt' and any(r == 'self._queue' and c.args and f'{other}.{heap}' in src(c.args[0]) for r, c in pat.method_calls(n.ast, 'extend'))]
+    loops = [n for n in gq.nodes if n.kind == 'test' and src(n.ast) in (f'{other}.{heap}', f'len({other}.{heap})')]
+    chk.ob('d', q.ref, 'the rest of a batch that the other queue is flushing right now moves too', bool(moved) and (bool(loops) or any('extend' in src(n.ast) for n in moved)),
+           loc(q, q.node), discr='drainFrom:batch-moved')
+    resets = [n for n in gq.nodes if n.kind == 'stmt' and any(r == other and a == '_flush_batch' and pat.is_const(v, 0) for r, a, v in pat.attr_store(n.ast))]
+    p = Q.escapes(gq, [gq.entry], lambda n: n in resets)
+    chk.ob('d', q.ref, 'the interrupted flush is told that nothing is left of its batch', p is None and bool(resets), loc(q, q.node), discr='drainFrom:batch-reset')
 
     # ---- unregister ----------------------------------------------------------
     g = unreg.cfg()
